@@ -18,7 +18,8 @@ namespace Gql.Parser
 open Gql Gql.Lexer
 
 /-- what every lexer token satisfies: it is not `Invalid`, and a kind without text has no value -/
-def TokOK (t : Token) : Prop := t.kind ≠ .invalid ∧ (t.kind.valued = false → t.value = [])
+def TokOK (t : Token) : Prop :=
+  t.kind ≠ .invalid ∧ (t.kind.valued = false → t.value = []) ∧ (t.kind = .name → t.value ≠ [])
 
 inductive Stream
   | eof (t : Token)
@@ -175,7 +176,7 @@ theorem rawS_noEof (rest : Bytes) (c : Cur) : (rawS rest c).NoEof := by
         have hp := readToken_progress rest c
         have ho := readToken_okAt rest c
         rw [h] at hp ho
-        exact ⟨⟨hk, ho.2.2.2, ho.2.2.1⟩, ih _ (by have := hp.2 hk; omega) _ _ rfl⟩
+        exact ⟨⟨hk, ho.2.2.2.1, ho.2.2.1, ho.2.2.2.2⟩, ih _ (by have := hp.2 hk; omega) _ _ rfl⟩
 
 /-- rune offsets move forward: every token ahead starts at or after the cursor, and the starts
     are strictly increasing -/
@@ -338,7 +339,7 @@ theorem WF'_readPeek (s : PState) : WF' s.readPeek := by
     · simp at he
     · have ho := readToken_okAt s.rest s.cur
       rw [h1] at ho
-      exact ⟨ho.2.2.2, ho.2.2.1⟩
+      exact ⟨ho.2.2.2.1, ho.2.2.1, ho.2.2.2.2⟩
 
 /-- one iteration of the comment loop in a filled look-ahead state holding a comment -/
 theorem takePeeked_comment {s : PState} (hp : s.peeked = true) (hw : WF' s) (hc : s.peekTok.kind = .comment) :
